@@ -1,7 +1,7 @@
 (* C01, simulation: the fragments are nested, and every program of the largest one is well-scoped
    (RefScope.well_scoped: the class property C01 quantifies over). *)
 From Coq Require Import List NArith ZArith Bool Arith Lia.
-From Cao Require Import CheckUtil CardAst Table RefSem RefScope StdlibGen C01SimDefs C01SimRef C01SimDefs2 C01SimDefs3 C01SimDefs4 C01SimDefs5 C01SimRef5 C01SimDefs6.
+From Cao Require Import CheckUtil CardAst Table RefSem RefScope StdlibGen C01SimDefs C01SimRef C01SimDefs2 C01SimDefs3 C01SimDefs4 C01SimDefs5 C01SimRef5 C01SimDefs6 C01SimDefs7.
 Import ListNotations.
 
 (* ------------------------------------------------------------------ nesting *)
@@ -99,6 +99,32 @@ Proof.
   destruct funs as [|[name f] [|]]; try discriminate. destruct imps; [|discriminate].
   intros H. apply andb_true_iff in H. destruct H as [H1 H2]. rewrite H1. cbn [andb].
   apply cards5_6, H2.
+Qed.
+
+Lemma stmt6_7 c : forall Ln, stmt6 Ln c = true -> stmt7 Ln c = true.
+Proof.
+  induction c using CompilerWf.card_ind'; intros Ln; cbn [stmt6 stmt7]; auto; try discriminate.
+  - destruct op; try discriminate; intros H; apply andb_true_iff in H; destruct H as [H1 H2]; rewrite H1, (IHc2 Ln H2); reflexivity.
+  - destruct op; try discriminate. intros H. apply andb_true_iff in H. destruct H as [H H3].
+    apply andb_true_iff in H. destruct H as [H1 H2]. rewrite H1, (IHc2 Ln H2), (IHc3 Ln H3). reflexivity.
+  - destruct i; [discriminate|]. intros H. apply andb_true_iff in H. destruct H as [H1 H2].
+    cbn [lv_ok lvn app]. rewrite H1, (IHc2 _ H2). reflexivity.
+  - match goal with HF : Forall _ cards |- _ => induction HF as [|x r Hx _ IHr] end; cbn [forallb]; [auto|].
+    intros H. apply andb_true_iff in H. destruct H as [H1 H2]. rewrite (Hx Ln H1), (IHr H2). reflexivity.
+Qed.
+Lemma cards6_7 cards : forall Ln, cards6 Ln cards = true -> cards7 Ln cards = true.
+Proof.
+  induction cards as [|c r IH]; intros Ln H; [reflexivity|]. cbn [cards6 cards7] in *.
+  apply andb_true_iff in H. destruct H as [H1 H2].
+  assert (Ht : top7 Ln c = true) by (destruct c; cbn [top6 top7] in *; try exact H1; apply stmt6_7; exact H1).
+  rewrite Ht. apply IH, H2.
+Qed.
+Lemma in_f6_f7 M : in_f6 M = true -> in_f7 M = true.
+Proof.
+  destruct M as [subs funs imps]. cbn [in_f6 in_f7]. destruct subs; [|discriminate].
+  destruct funs as [|[name f] [|]]; try discriminate. destruct imps; [|discriminate].
+  intros H. apply andb_true_iff in H. destruct H as [H1 H2]. rewrite H1. cbn [andb].
+  apply cards6_7, H2.
 Qed.
 
 (* ------------------------------------------------------------------ the scoping rules *)
@@ -264,6 +290,74 @@ Proof.
   induction cards as [|c r IH]; intros ret Ln Hn; cbn [cards6 ws_seq]; [reflexivity|]. intros H.
   apply andb_true_iff in H. destruct H as [H1 H2]. destruct (top_ws6 Ln c Hn H1 ret) as [A B]. rewrite A. apply IH; assumption.
 Qed.
+
+Lemma stmt_ws7 c : forall Ln, stmt7 Ln c = true -> forall ret decl up, ws P fi ret decl (visn Ln) up c = Some (visn Ln).
+Proof.
+  induction c using CompilerWf.card_ind'; intros Ln Hc; cbn [stmt7] in Hc; try discriminate Hc; intros ret decl up.
+  - (* IfTrue / IfFalse / While *)
+    destruct op; try discriminate Hc; apply andb_true_iff in Hc; destruct Hc as [He Hb];
+      destruct (expr_ws c1 He ret false (visn Ln) up) as [A1 B1]; cbn [ws];
+      rewrite A1, B1, (IHc2 Ln Hb ret false up); reflexivity.
+  - (* IfElse *)
+    destruct op; try discriminate Hc. apply andb_true_iff in Hc. destruct Hc as [Hc Hb].
+    apply andb_true_iff in Hc. destruct Hc as [He Ha].
+    destruct (expr_ws c1 He ret false (visn Ln) up) as [A1 B1]. cbn [ws].
+    rewrite A1, B1, (IHc2 Ln Ha ret false up), (IHc3 Ln Hb ret false up). reflexivity.
+  - reflexivity.
+  - (* SetGlobalVar *)
+    apply andb_true_iff in Hc. destruct Hc as [Hne He].
+    destruct (expr_ws c He ret false (visn Ln) up) as [A1 B1]. rewrite is_empty_conv in Hne. cbn [ws]. rewrite Hne.
+    destruct c; try discriminate He; rewrite A1, B1; reflexivity.
+  - (* SetVar of a local *)
+    apply andb_true_iff in Hc. destruct Hc as [Hc He]. apply andb_true_iff in Hc. destruct Hc as [Hx Hm].
+    unfold var_ok in Hx. apply andb_true_iff in Hx. destruct Hx as [Hne Hdot].
+    apply negb_true_iff in Hne, Hdot. rewrite is_empty_conv in Hne.
+    destruct (expr_ws c He ret false (visn Ln) up) as [A1 B1]. cbn [ws].
+    rewrite (rsplit_no_dot _ Hdot), Hne, mem_lmem, (lmem_visn _ _ Hne), Hm. cbn [orb].
+    destruct c; try discriminate He; rewrite A1, B1; reflexivity.
+  - (* Repeat *)
+    apply andb_true_iff in Hc. destruct Hc as [Hc Hb]. apply andb_true_iff in Hc. destruct Hc as [He Hi].
+    destruct (expr_ws c1 He ret false (visn Ln) up) as [A1 B1].
+    destruct i as [x|].
+    + cbn [lv_ok] in Hi. unfold var_ok in Hi. apply andb_true_iff in Hi. destruct Hi as [Hx _]. apply negb_true_iff in Hx.
+      rewrite is_empty_conv in Hx.
+      cbn [ws opt_names flat_map nodup app mem existsb negb andb]. rewrite A1, B1. cbn [andb].
+      pose proof (IHc2 (x :: [] :: [] :: Ln) Hb ret true up) as H. cbn [visn filter] in H. rewrite Hx in H.
+      cbn [is_empty negb] in H. fold (visn Ln) in H. rewrite H. reflexivity.
+    + cbn [ws opt_names flat_map nodup app]. rewrite A1, B1. cbn [andb].
+      pose proof (IHc2 ([] :: [] :: Ln) Hb ret true up) as H. cbn [visn filter is_empty negb] in H. fold (visn Ln) in H.
+      rewrite H. reflexivity.
+  - (* Composite *)
+    cbn [ws]. match goal with HF : Forall _ cards |- _ => rename HF into HFall end.
+    revert Hc. induction HFall as [|x r Hx _ IHr]; intros Hc; [reflexivity|].
+    cbn [forallb] in Hc. apply andb_true_iff in Hc. destruct Hc as [H1 H2].
+    rewrite (Hx Ln H1 ret decl up). apply IHr, H2.
+Qed.
+
+Lemma top_ws7 Ln c : named_all Ln -> top7 Ln c = true ->
+  forall ret, ws P fi ret true Ln [] c = Some (names_next Ln c) /\ named_all (names_next Ln c).
+Proof.
+  intros Hn Hc ret.
+  assert (Hstmt : stmt7 Ln c = true -> names_next Ln c = Ln ->
+                  ws P fi ret true Ln [] c = Some (names_next Ln c) /\ named_all (names_next Ln c)).
+  { intros H6 Hnx. rewrite Hnx. split; [|exact Hn]. pose proof (stmt_ws7 c Ln H6 ret true []) as H.
+    rewrite (visn_named _ Hn) in H. exact H. }
+  destruct c; try (apply Hstmt; [exact Hc | reflexivity]).
+  cbn [top7] in Hc. apply andb_true_iff in Hc. destruct Hc as [Hx He].
+  unfold var_ok in Hx. apply andb_true_iff in Hx. destruct Hx as [Hne Hdot].
+  apply negb_true_iff in Hne, Hdot. rewrite is_empty_conv in Hne.
+  destruct (expr_ws c He ret false Ln []) as [A1 B1]. cbn [ws names_next].
+  rewrite (rsplit_no_dot _ Hdot), Hne, mem_lmem. cbn [mem existsb orb]. rewrite orb_false_r.
+  split.
+  - destruct c; try discriminate He; rewrite A1, B1; cbn [negb]; destruct (lmem name Ln); reflexivity.
+  - destruct (lmem name Ln); [exact Hn | constructor; [exact Hne | exact Hn]].
+Qed.
+
+Lemma cards_ws7 cards : forall ret Ln, named_all Ln -> cards7 Ln cards = true -> ws_seq P fi ret Ln cards = true.
+Proof.
+  induction cards as [|c r IH]; intros ret Ln Hn; cbn [cards7 ws_seq]; [reflexivity|]. intros H.
+  apply andb_true_iff in H. destruct H as [H1 H2]. destruct (top_ws7 Ln c Hn H1 ret) as [A B]. rewrite A. apply IH; assumption.
+Qed.
 End Ws.
 
 (* ------------------------------------------------------------------ the program level *)
@@ -280,9 +374,9 @@ Proof.
   destruct H as [H1 H2]. cbn [length seq combine forallb snd]. rewrite H1, (IH H2 (S k)). reflexivity.
 Qed.
 
-Theorem in_f6_well_scoped M : in_f6 M = true -> well_scoped M = true.
+Theorem in_f7_well_scoped M : in_f7 M = true -> well_scoped M = true.
 Proof.
-  intros HM. destruct M as [subs funs imps]. cbn [in_f6] in HM.
+  intros HM. destruct M as [subs funs imps]. cbn [in_f7] in HM.
   destruct subs; [|discriminate]. destruct funs as [|[name f] [|]]; try discriminate.
   destruct imps; [|discriminate].
   apply andb_true_iff in HM. destruct HM as [HM Hcards]. apply andb_true_iff in HM. destruct HM as [Hname Hargs].
@@ -295,9 +389,11 @@ Proof.
   cbn [map fe_name]. rewrite Hnd. cbn [andb length seq combine forallb fst snd].
   rewrite (forallb_std_combine _ stdl Hstd 1). rewrite andb_true_r.
   unfold is_std, ws_function. cbn [fe_ns fe_fn orb]. rewrite Ha. cbn [nodup forallb andb Nat.eqb negb].
-  apply cards_ws6; [constructor | exact Hcards].
+  apply cards_ws7; [constructor | exact Hcards].
 Qed.
 
+Corollary in_f6_well_scoped M : in_f6 M = true -> well_scoped M = true.
+Proof. intros H. apply in_f7_well_scoped, in_f6_f7, H. Qed.
 Corollary in_f5_well_scoped M : in_f5 M = true -> well_scoped M = true.
 Proof. intros H. apply in_f6_well_scoped, in_f5_f6, H. Qed.
 Corollary in_f4_well_scoped M : in_f4 M = true -> well_scoped M = true.
@@ -315,8 +411,9 @@ Theorem fragments_well_scoped M :
   (in_f3 M = true -> in_f4 M = true) /\
   (in_f4 M = true -> in_f5 M = true) /\
   (in_f5 M = true -> in_f6 M = true) /\
-  (in_f6 M = true -> well_scoped M = true).
+  (in_f6 M = true -> in_f7 M = true) /\
+  (in_f7 M = true -> well_scoped M = true).
 Proof.
   split; [apply in_f1_f2|]. split; [apply in_f2_f3|]. split; [apply in_f3_f4|]. split; [apply in_f4_f5|].
-  split; [apply in_f5_f6 | apply in_f6_well_scoped].
+  split; [apply in_f5_f6|]. split; [apply in_f6_f7 | apply in_f7_well_scoped].
 Qed.
